@@ -143,10 +143,8 @@ type c17Gen struct {
 	markerUsed int
 	nDyn       int
 	nForbid    int
-	exEP       bool
-	cacheDel   bool // the gateway has deleted something from the cache index
+	cacheDel   bool // the gateway has deleted something from the cache index (label only)
 	thorough   bool
-	excluded   map[string]int
 }
 
 func (g *c17Gen) vec(p c17Pos) []float32 {
@@ -301,10 +299,6 @@ func (g *c17Gen) evaluate(pos c17Pos, deco c17Deco, stream bool) (c17Cand, bool)
 				return cd, false
 			}
 		}
-	}
-	if g.exEP && g.cacheDel && cacheApplies && len(d.LiveIn) > 0 {
-		g.excluded[c17FindEP] = 1
-		return cd, false
 	}
 	switch {
 	case d.Pat && d.Sem:
@@ -494,6 +488,9 @@ func (g *c17Gen) genReq(i int) (c17Step, bool) {
 	if deco.marker != "" && strings.HasPrefix(cd.cat, "block-") {
 		st.Intent += "+marker"
 	}
+	if g.cacheDel && strings.HasPrefix(cd.cat, "cache-hit") {
+		st.Intent += "+after-delete" // a hit that needs the index to stay searchable after the gateway deleted from it
+	}
 
 	// message list
 	if st.Shape == "prompt" || c.RAG {
@@ -631,8 +628,7 @@ func (g *c17Gen) genInvalidate(i int) (c17Step, bool) {
 func c17GenCase() *rapid.Generator[*c17Case] {
 	return rapid.Custom(func(rt *rapid.T) *c17Case {
 		c := &c17Case{}
-		g := &c17Gen{rt: rt, c: c, pids: map[string]int{}, embedded: map[string]bool{}, excluded: map[string]int{},
-			exEP: c17Excl(c17FindEP), thorough: verifkit.Thorough()}
+		g := &c17Gen{rt: rt, c: c, pids: map[string]int{}, embedded: map[string]bool{}, thorough: verifkit.Thorough()}
 		g.K = c17Int(rt, "topics", 2, 4)
 		g.M = 2
 		c.Dim = 2*g.K + g.M + 1
@@ -784,14 +780,9 @@ func c17GenCase() *rapid.Generator[*c17Case] {
 				c.Steps = append(c.Steps, st)
 			}
 		}
-		c17LastExcluded = g.excluded
 		return c
 	})
 }
-
-// c17LastExcluded: how often the last generated case had to avoid a known
-// finding (read by the test function right after Draw; single goroutine).
-var c17LastExcluded map[string]int
 
 // c17Labels: case-level classes and the non-trivial rule, from the pure data.
 func c17Labels(c *c17Case) (labels []string, nontrivial bool) {
@@ -820,6 +811,9 @@ func c17Labels(c *c17Case) (labels []string, nontrivial bool) {
 		set["has:"+base] = true
 		if strings.Contains(in, "+marker") {
 			set["has:blocked-with-marker"] = true
+		}
+		if strings.Contains(in, "+after-delete") {
+			set["has:cache-hit-after-gateway-delete"] = true
 		}
 		if strings.Contains(in, "+history") {
 			set["has:multi-message-history"] = true
